@@ -388,13 +388,19 @@ Definition plugin_step (m : smap) (now : Z) (r : remedy) (hs : list (str * str))
 (** * Correspondence entry points                                       *)
 
 (* suite "limit": [n] requests at one instant on a fresh key with
-   AllowedRequestCount = total and the given ratio; observed = how many proceeded *)
-Definition case_limit := (Z * Z * Z * Z)%type.      (* total, ratio bits, n, proceeded *)
-Definition mk_limit (total rb n passed : Z) : case_limit := (total, rb, n, passed).
+   AllowedRequestCount = total and the given ratio; observed = how many proceeded.
+   When the ratio comes from a percentage with two decimals, h = that percentage in
+   hundredths (else -1) and the case also checks that the model's reading of a
+   configured percentage (decimal -> float64 -> /100) gives the very ratio bits
+   the Go side computed. *)
+Definition case_limit := (Z * Z * Z * Z * Z)%type.  (* total, ratio bits, n, proceeded, h *)
+Definition mk_limit (total rb n passed h : Z) : case_limit := (total, rb, n, passed, h).
 Definition run_limit (c : case_limit) : option Z :=
-  let '(total, rb, n, passed) := c in
+  let '(total, rb, n, passed, h) := c in
   let l := limit_code total rb in
-  if Z.min n l =? passed then None else Some l.
+  if negb (Z.min n l =? passed) then Some l
+  else if (h <? 0) || (ratio_of_pct_bits (pct_bits_of_hundredths h) =? rb) then None
+  else Some (-1).
 
 (* suite "hist": a history on the package API.
    profiles: (window ns, allowed, ratio bits, spill-over enabled, renew day)
